@@ -315,11 +315,24 @@ impl Unit {
             self
         } else if other_factor.to_f64() < self_factor.to_f64() {
             other
-        } else if self.canonicalized().iter().le(other.canonicalized().iter()) {
+        } else if self.canonical_order(other).is_le() {
             self
         } else {
             other
         }
+    }
+
+    /// Orders units by their canonical factor lists. Unit identifiers are ordered
+    /// by dimension only, so units that differ in nothing but their names
+    /// (`unit a = 0.1 m`, `unit b = 0.1 m`) are ordered by those names.
+    fn canonical_order(&self, other: &Self) -> std::cmp::Ordering {
+        let lhs = self.canonicalized();
+        let rhs = other.canonicalized();
+        lhs.iter().cmp(rhs.iter()).then_with(|| {
+            lhs.iter()
+                .map(|f| &f.unit_id.name)
+                .cmp(rhs.iter().map(|f| &f.unit_id.name))
+        })
     }
 
     #[cfg(test)]
